@@ -7,6 +7,13 @@ FAULTS = ['forall (q:int[0,3]) +', 'exists (q : int[0,1]) q == ', 'sum (k : int[
           'g0 ? 1 :', 'a . b .', '"str', 'g0 = = 1', '', 'forall (q : bool) g0 == 1', 'exists (q : clock) g0 == 1', 'sum (q : double) 1', 'forall (q : chan) true && g0 == 1', 'g0 == 1 && forall (q : bool) forall (r : int[0,1]) g1 > r',
           'g0 == 1 /* never closed', '/* only a comment', 'g0 /* closed */ ==', '1 // trailing', 'g0 == 1 /* x */ /* y']
 
+# ill-typed instances of every expression constructor (binary, unary, conditional, index, call, member, assignment, quantifier, builtin, list, rate), over the names every
+# generated model declares (integers g0 g1, clock x): the diagnostic belongs to the node of that constructor, whose position must lie in the faulted label
+SEM_FAULTS = ['g0 + (x < 1) == 1', '-(x < 1) == 1', '!x', '(x ? 1 : 2) == 1', '(g0 == 1 ? (x < 1) : 2) == 1', 'g0 == 1 ? x : true', 'g0[1] == 1', 'g0(1) == 1', 'g0.a == 1', '(g0 + 1) = 2', 'g0 = (x < 1)',
+              'g0 = (g1 == 1 ? x : true)', 'forall (q : int[0,1]) x', 'sum (q : int[0,1]) (x < 1)', 'abs(x < 1) == 1', 'g0 = 1, g1 = (x < 1)', 'g0++ == (x < 1)', 'x = (g0 == 1 ? x < 1 : 2)',
+              '(g0 == 1 ? g1 : x < 1) = 3', 'g0 == 1 imply x', 'g0 <? (x < 1)', 'g0 % x', 'g0 << x', "x' == (x < 1)", 'g0 == "s"', '1.5 % 2', 'exists (q : int[0,1]) (q ? x : 2) == 1',
+              'g1 = (true ? x : g0 == 1)', '(g0 == 1 ? x : g1) == 1', 'g0 == (g1 ? 1 : (x < 1))', 'fmax(x < 1, 2) > 1', 'g0 += (x < 1)', '(x < 1)++', 'g0 == 1 && (x ? true : false)']
+
 
 def label_sites(M):
     """every non-declaring label of M: (description, xpath, dump line prefix, field, kind, marker)"""
@@ -139,7 +146,8 @@ def check(run):
             S = rng.choice(sites)
             r = rng.random()
             orig = docgen.ltext(M, S['key'][0], S['key'][1])
-            if r < 0.45: bad = rng.choice(FAULTS)
+            if r < 0.3: bad = rng.choice(FAULTS)
+            elif r < 0.5: bad = rng.choice(SEM_FAULTS)
             elif r < 0.9: bad = crashgen.mutate_tokens(rng, orig, n=1)
             else: bad = orig + ' ' + rng.choice(FAULTS + ['/* never closed', '/* open\n comment'])
             if bad == orig:
@@ -232,7 +240,7 @@ def check(run):
     stats['sites'] = dict(stats['sites'])
     run.cov.update(evaluations=len(cases) + len(dcases) + nm + 1, distinct_nontrivial=len(set(c[4] for c in cases)) + len(set(d[3] for d in dcases)), traces_validated_against_impl=len(cases) + len(dcases),
                    rule='accepted models of the C04 generator (templates with a local that shadows a global); one fault per run in one invariant / rate / guard / synchronisation / update / probability label: a token deleted, inserted, replaced or duplicated at a random position, '
-                        'or a fault from a list aimed at the parser\'s mid-rule actions (unfinished forall / exists / sum, unbalanced brackets, calls, array and dot expressions, unknown identifiers, type errors, empty label); '
+                        'or a fault from a list aimed at the parser\'s mid-rule actions (unfinished forall / exists / sum, unbalanced brackets, calls, array and dot expressions, unknown identifiers, type errors, empty label) or an ill-typed instance of one expression constructor (34 forms); '
                         'with symbol bindings dumped (name@frame:type), everything but the faulted field must equal the fault-free dump line by line and every diagnostic must carry the faulted label\'s path; '
                         'declaration blocks of 12 declarations (variables, constants, typedefs, arrays, structs, functions) with one declaration truncated or token-mutated: all earlier declarations must be present and unchanged',
                    **stats)
